@@ -194,6 +194,20 @@ def one_tree(tspec, acc, rnd, sample=False, forced=None):
         finally:
             os.chdir(cwd)
         acc.evaluated()
+        # ... and as pathlib.Path objects with a '..' component (Path(__file__).parent / ".." / "proj")
+        from pathlib import Path
+
+        pcase = dict(rcase, label="include:pathlib-dotdot", relative_paths=False, pathlib_dotdot=True)
+        HUB.case = pcase
+        try:
+            get_evaluable_architecture(Path(root) / os.pardir / os.path.basename(root), (Path(mp_abs) / os.pardir / os.path.basename(mp_abs)) if mp_rel else Path(root), exclude_external_libraries=False)
+            pth = HUB.scan_events[-1]
+            attribute_scan_findings(pth, {"external": "C10", "hierarchy": "C10"}, pcase)
+            if pth.state != inc.state:
+                HUB.violation("C10", "external-modules-depend-on-the-spelling-of-root_path", "include-mode scans of the same directories, spelled as strings and as pathlib.Path objects with a '..' component, differ", {"mp": mp_rel, "nodes_diff": sorted(inc.nodes ^ pth.nodes)[:12], "imports_diff": sorted(inc.imps ^ pth.imps)[:12]})
+        except Exception as e:  # noqa: BLE001
+            HUB.violation("C10", f"include-scan-with-path-objects-raises-{type(e).__name__}", f"an include-mode scan with pathlib.Path arguments raised {e}", {"mp": mp_rel})
+        acc.evaluated()
         acc.count("include_scans_with_relative_paths")
         attribute_scan_findings(rel, {"external": "C10", "hierarchy": "C10"}, rcase)
         if rel.state != inc.state:
